@@ -124,10 +124,10 @@ class Handlers:
             self._callers = {}
         if fnbody.id not in self._callers:
             out = []
-            for x in self.P.bodies.values():
+            for x in self.P.orig.values():
                 for c in x.calls:
                     if not c.indirect and c.local and c.path == fnbody.nid:
-                        out.append((x, c))
+                        out.append((self.P.bodies.get(x.id, x), c))
             self._callers[fnbody.id] = out
         return self._callers[fnbody.id]
 
